@@ -701,6 +701,14 @@ def enumerate_injections(model):
                             variants.append(units[:i] + [""] + units[i + 1:])
                         if case_twin(u):
                             variants.append(units[:i] + [case_twin(u)] + units[i + 1:])
+                        # the very string a referenced array carries on this axis when that string is no SI unit:
+                        # identical, and still not convertible
+                        for rn in t["refs"]:
+                            ra = find_array(b, rn)
+                            if ra is not None and i < len(ra["dims"]):
+                                au = dim_unit(b, ra["dims"][i])
+                                if au and au != u and units_ref.parse(au) is None and "*" not in au and "/" not in au:
+                                    variants.append(units[:i] + [au] + units[i + 1:])
                 variants.append(units + [""])
                 variants.append(units + ["ms"])
                 for v in variants:
